@@ -60,12 +60,15 @@ TransferOwnership(st, a) ==
     ELSE Acc([st EXCEPT !.owner = a.new], "unit",
              <<[k |-> "ownership_transferred", prev |-> st.owner, new |-> a.new]>>)
 
+(* verification hook (harness only, never a contract entry point): the Upgradable interface's migration window is
+   opened without swapping code.  The window belongs to another interface: nothing in this module may depend on it *)
 Apply(st, a) ==
     CASE a.name = "PayGas"            -> PayGas(st, a)
       [] a.name = "AddGas"            -> AddGas(st, a)
       [] a.name = "CollectFees"       -> CollectFees(st, a)
       [] a.name = "Refund"            -> Refund(st, a)
       [] a.name = "TransferOwnership" -> TransferOwnership(st, a)
+      [] a.name = "HookOpenWindow" -> Acc(st, "unit", <<>>)
 
 -----------------------------------------------------------------------------
 RECURSIVE SumOver(_, _)
